@@ -59,6 +59,9 @@ class Unit:
     def store_hook(self, interp, base, idx, val, line):
         return NotImplemented
 
+    def call_hook(self, interp, f, args, kwargs, line):
+        return NotImplemented
+
     def binary_hook(self, interp, op, a, b, line):
         return NotImplemented
 
